@@ -34,7 +34,7 @@ FLOORS = {}
 U6 = [2, 3, 4, 6, 7, 10]
 U8 = [2, 3, 4, 6, 7, 10, 11, 20]
 KINDS = ["hw-trunk", "hw-tagged", "hw-batch", "hw-instance", "cs-swtrunk", "nx-vlan"]
-GEN_KINDS = KINDS + ["hw-global", "hw-global", "cs-global", "cs-global"]
+GEN_KINDS = KINDS + ["hw-global", "hw-global", "cs-global", "cs-global", "nx-swtrunk", "nx-swtrunk"]
 
 
 # ------------------------------------------------------------------ own range helpers (not annet's)
@@ -83,6 +83,7 @@ def parse_list(text):
 PREFIX = {
     "hw-trunk": "port trunk allow-pass vlan", "hw-tagged": "port hybrid tagged vlan", "hw-batch": "vlan batch",
     "hw-instance": "instance 1 vlan", "cs-swtrunk": "switchport trunk allowed vlan", "nx-vlan": "vlan",
+    "nx-swtrunk": "switchport trunk allowed vlan",
 }
 MODEL = {"hw": "Huawei CE6870", "cs": "Cisco Catalyst 2960", "nx": "Cisco Nexus 3132"}
 
@@ -93,7 +94,7 @@ def rows_for(kind, lines):
     for i, rs in enumerate(lines):
         if kind.startswith("hw"):
             out.append("%s %s" % (pre, fmt_hw(rs)))
-        elif kind == "cs-swtrunk":
+        elif kind in ("cs-swtrunk", "nx-swtrunk"):
             out.append("%s %s%s" % (pre, "add " if i else "", fmt_cs(rs)))
         else:
             out.append("%s %s" % (pre, fmt_cs(rs)))
@@ -120,9 +121,9 @@ def simulate(kind, cmds, s_old):
                 s = set()
             elif arg == "none" and not neg:
                 s = set()
-            elif arg.startswith("remove ") and kind == "cs-swtrunk":
+            elif arg.startswith("remove ") and kind in ("cs-swtrunk", "nx-swtrunk"):
                 s -= parse_list(arg[len("remove "):])
-            elif arg.startswith("add ") and kind == "cs-swtrunk":
+            elif arg.startswith("add ") and kind in ("cs-swtrunk", "nx-swtrunk"):
                 s |= parse_list(arg[len("add "):])
             elif neg:
                 s -= parse_list(arg)
@@ -207,7 +208,10 @@ def _cases(draw):
         items.append([fixed[0:1] if kind == "hw-instance" and fixed else fixed][0])
     if kind == "hw-instance":
         items = [[sum(x, [])] if x else [] for x in items]
-    return {"kind": kind, "mode": mode, "items": [items]}
+    case = {"kind": kind, "mode": mode, "items": [items]}
+    if kind == "nx-swtrunk":
+        case["lag"] = draw(st.sampled_from([None, None, "old", "old", "new", "both"]))
+    return case
 
 
 @st.composite
@@ -339,13 +343,17 @@ def check(case):
                 new[r] = odict()
         else:
             holder = {"hw-trunk": "interface 10GE1/0/%d", "hw-tagged": "interface 10GE1/0/%d", "hw-instance": "stp region-configuration",
-                      "cs-swtrunk": "interface GigabitEthernet0/%d"}[kind]
+                      "cs-swtrunk": "interface GigabitEthernet0/%d", "nx-swtrunk": "interface Ethernet1/%d"}[kind]
             holder = holder % i if "%d" in holder else holder
             old[holder] = odict((r, odict()) for r in ro)
             new[holder] = odict((r, odict()) for r in rn)
-            if kind.startswith("hw-t") or kind == "cs-swtrunk":
+            if kind.startswith("hw-t") or kind in ("cs-swtrunk", "nx-swtrunk"):
                 old[holder]["description x"] = odict()
                 new[holder]["description x"] = odict()
+            if kind == "nx-swtrunk" and case.get("lag") in ("old", "both"):
+                old[holder]["channel-group 1 mode active"] = odict()     # the port leaves (or stays in) a port-channel in the same step
+            if kind == "nx-swtrunk" and case.get("lag") in ("new", "both"):
+                new[holder]["channel-group 1 mode active"] = odict()
         holders.append(holder)
     if mode == "device":
         d, pt = _diff_and_patch(sut.Dev(hw), old, new, None, None, False)
@@ -361,6 +369,8 @@ def check(case):
             cmds = [p[0] for p in paths if len(p) == 1]
         else:
             cmds = [p[1] for p in paths if len(p) == 2 and p[0] == holder and p[1] != exitw]
+            if kind == "nx-swtrunk":
+                cmds = [c for c in cmds if PREFIX[kind] in c]    # (lag membership commands are not VLAN-list commands)
         det = {"kind": kind, "mode": mode, "old_rows": rows_for(kind, lo), "new_rows": rows_for(kind, ln), "commands": cmds,
                "unchanged_line_dropped": False}
         ro, rn = rows_for(kind, lo), rows_for(kind, ln)
